@@ -678,6 +678,10 @@ def call_method(interp, v, name, args, pl, hint, tf, ctx):
         f = STR_METHODS.get(name)
         if f is not None:
             return f(interp, v, args, pl, hint, tf)
+        # a String used through AsRef<Path>
+        r = _fs_model.PathModel.call_method(interp, _fs_model.mkpath(v), name, args, pl, hint, tf, ctx)
+        if r is not NotImplemented:
+            return r
     elif isinstance(v, Enum):
         if v.ty == 'Option':
             f = OPT_METHODS.get(name)
